@@ -309,7 +309,7 @@ func (r *Runner) c06after(op *OpSpec, st *Step, sd *model.StructDef, m *message,
 	s.next++
 	o.snap = model.Digest(model.CanonValue(dst.Elem()))
 	if res.Cls == "ok" {
-		model.Extents(r.C, sd, m.w, dst.Elem(), op.Type, &o.extents)
+		model.Extents(r.C, sd, m.w, dst.Elem(), op.Type, !op.Prefill, &o.extents)
 	} else {
 		// a decode that failed midway: what it stored before failing must stay as it is (snapshot only; the wire
 		// tree no longer describes the object, so its extents are not walked)
